@@ -72,13 +72,15 @@ def run(ctx, rep):
             if acc:
                 # member pairing against every reader sequence of the same shape
                 for w, r in zip(s, acc):
-                    if w[0] in ('b32', 'b64', 'raw') and w[2] and r[2] and w[2].isidentifier() and r[2].isidentifier():
+                    if w[0] in ('b32', 'b64', 'raw', 'bs') and w[2] and r[2]:
                         wm, rm = w[2], r[2]
-                        if w[0] == 'raw' or (wf.expr(['c', 0, 32]) and True):
-                            pass
-                        key = (tag, wm, rm)
+                        # compare with the owning struct when both sides know it, by member name otherwise
+                        if '.' in wm and '.' in rm:
+                            same = wm == rm
+                        else:
+                            same = wm.split('.')[-1] == rm.split('.')[-1]
                         npairs += 1
-                        rep.check(wm == rm or (wm, rm) in ALIASES, 'R-C10-2', "record '%s' field %s" % (tag, w[0]), wf.file, 'written from .%s, restored into .%s' % (wm, rm), function='state_read_content', construct="record %s %s<-%s" % (tag, rm, wm))
+                        rep.check(same or (wm, rm) in ALIASES, 'R-C10-2', "record '%s' field %s" % (tag, w[0]), wf.file, 'written from %s, restored into %s' % (wm, rm), function='state_read_content', construct="record %s %s<-%s" % (tag, rm, wm))
     # block-state tags: writer switch(state) case K -> sputc(X) ; reader switch(tag) case X -> block_state_set(K)
     wmap = {}
     for b in range(len(wf.blocks)):
